@@ -14,17 +14,18 @@ func copyFile(f *File, newName string) (*File, error) {
 // copyDir copy directory and return new directories and files tree
 func copyDir(d *Dir, newName string) (*Dir, error) {
 	var err error
-	d.mu.RLock()
-	defer d.mu.RUnlock()
-	var nodescopy = make([]os.FileInfo, len(d.nodes))
-	for i := 0; i < len(d.nodes); i++ {
-		if d.nodes[i].IsDir() {
-			var dir = d.nodes[i].(*Dir)
+	// copy from a snapshot of the listing: waiting for a file's data lock with the directory
+	// index locked would block the holder of an open handle on that file who adds a node here
+	nodes := d.getNodes()
+	var nodescopy = make([]os.FileInfo, len(nodes))
+	for i := 0; i < len(nodes); i++ {
+		if nodes[i].IsDir() {
+			var dir = nodes[i].(*Dir)
 			if nodescopy[i], err = copyDir(dir, dir.Name()); err != nil {
 				return nil, err
 			}
 		} else {
-			var file = d.nodes[i].(*File)
+			var file = nodes[i].(*File)
 			if nodescopy[i], err = copyFile(file, file.Name()); err != nil {
 				return nil, err
 			}
